@@ -6,12 +6,14 @@ C09.a  every sequential block named by the property (register, toggle register, 
        symbolic clock()/propagate() summaries of its leaves, is co-simulated with the documented
        reference state machine from power-up over all short input sequences and long biased ones;
 C09.b  read-before-write order inside the memories' clock();
-C09.c  definite failures in the anchored files.
+C09.c  definite failures in the anchored files;
+C09.d  instance isolation ("from power-up" holds for every instance whatever was built before): no mutable default argument of a
+       constructor is stored or mutated, no class-level container is written through an instance.
 """
 import ast
 
 from ..cfg import fn_paths
-from ..leafrules import definite_failures
+from ..leafrules import definite_failures, shared_instance_state
 from ..structrules import run_seq_specs
 from ..srcmap import norm
 
@@ -61,5 +63,8 @@ def run(ctx, sm, facts):
     read_before_write(ctx, facts)
     definite_failures(ctx, facts, sm, 'C09.c', FILES)
     definite_failures(ctx, facts, sm, 'C09.c', ['py4hw/logic/arithmetic.py'], class_filter=lambda n: n in ('Counter', 'ModuloCounter', 'StepUpCounter'))
+    ctx.rule('C09.d', 'instance isolation: no mutable default argument / class-level container carries state from one block instance to another')
+    n = shared_instance_state(ctx, facts, 'C09.d', FILES + ['py4hw/logic/arithmetic.py'])
+    ctx.floor('C09.d', 'classes scanned', n, 20)
     ctx.not_decided += ['input sequences longer than the bound / widths and depths above the grid', 'ClockDivider with non-integer ratios and AutoReset (reset length is not documented)']
     ctx.assumptions += ['reference state machines transcribed from the docstrings in hv/specs.py', 'elaborator and summariser faithful; unsupported constructs abort an entry as not evaluable']
